@@ -69,7 +69,9 @@ def run_route(ctx, n, bs, q, route, tag='w'):
     out = ctx.path(f'{tag}k.sgz')
     with symcodec.symbolic_encoder() as enc, hash_log() as hl:
         if route == 'numpy':
-            conv.numpy_to_sgz(lin, out, q, bs)
+            ctx.stats['_numpy_layout'] += 1
+            conv.numpy_to_sgz(gen.noncontiguous(lin, ctx.stats['_numpy_layout'] // 2) if ctx.stats['_numpy_layout'] % 2 else lin,
+                              out, q, bs)
         else:
             sgy = ctx.path(f'{tag}k.sgy')
             if bs[0] == 1:
